@@ -17,6 +17,7 @@ claimed["C07"] = ("Parse executed symbolically on: arbitrary buffers of every le
 claimed["C12"] = ("for every parsed frame (library encodings of 23 message kinds in all builder shapes, each of the 27 action kinds, each match-field kind masked and unmasked, packet-in carrying 9 payload stacks incl. IPv4 options and IPv6 extension headers, bundle-add with flow-mod and property, and arbitrary framed bytes <= 24/40 B that parse): the re-encoding after replacing every cell of the input buffer by fresh symbols equals the re-encoding before (SMT), and the concrete heap reachable from the message shares no non-empty array with the buffer", "4 C12")
 claimed["C02"] = ("an independent length-only walker written from the OpenFlow 1.3.5 / nicira-ext.h grammar (match and OXM TLVs, instructions, standard and Nicira actions incl. conntrack nesting, learn specs, nat presence bitmap, set-field / reg_load2 padding, buckets, hello elements, multipart requests, vendor messages, bundled messages and properties) is executed symbolically on the encoding of every controller-originated message kind, every action kind in all variants, every match-field kind, richer flow-mod / group-mod / packet-out shapes, bundle-add wrapping each kind, builder histories with prepend, late-growing children and nat setters in any order with sizing in between: every declared length, alignment, zero padding and type code rule holds and the walk ends exactly at the end (SMT over all field values)", "4 C02")
 claimed["C03"] = ("reference writers transcribed from OpenFlow 1.3.5 and nicira-ext.h are fed the same constructor arguments as the library and the encodings compared byte for byte (one SMT query per element, all field values at once): all 44 match-field kinds with and without mask, matches, all 27 action kinds in every variant (64 nat range subsets, flag combinations, conntrack zone forms and nesting, 5 learn-spec kinds with n_bits 1..1023), instructions incl. prepend order, flow-mod (all commands), group-mod with buckets, packet-out, port-mod, set-config, multipart requests, Nicira and bundle vendor messages", "4 C03")
+claimed["C04"] = ("reference writers (OpenFlow 1.3.5 / nicira-ext.h layouts) produce the bytes of every switch-originated kind from symbolic field values - hello with version-bitmap elements, error, experimenter error, echo, barrier reply, features reply, get-config reply, packet-in (match + Ethernet frame + payload), flow-removed, port-status with port description, multipart replies desc / flow (match, instructions, actions) / aggregate / table / port / queue, tlv-table reply, bundle control reply - Parse is executed symbolically on them and the dynamic type and every exported field, list element and payload byte of the result is compared with what was written (SMT over all values; lists <= 2/3 elements)", "4 C04")
 pending = {}
 allp = [json.loads(l)["id"] for l in open("/verif/properties.jsonl")]
 TRUST = "go/ssa lowering, gc compiler, Go runtime, SMT solvers (z3 4.8.12 decides; z3 5.1.0 and cvc5 1.0 cross-check sampled verdict queries), the environment stubs listed in each evidence file; nothing outside the per-harness bounds in DESIGN.md §4"
